@@ -275,7 +275,7 @@ class Ext(cpp2coq.Tr):
             pc = self.pair_cond(stmts[0]["a"][0], env)
             if pc is not None:
                 return self.pair_loop(stmts[0], pc, stmts[1:], [st[0]], dict(env), K)
-        if stmts and stmts[0]["k"] == "decls" and any(v["k"] == "?DecompositionDecl" for v in stmts[0]["a"]):
+        if stmts and stmts[0]["k"] == "decls" and any(v["k"] == "sbind" for v in stmts[0]["a"]):
             return self.decomposition(stmts[0], stmts[1:], [st[0]], dict(env), K)
         return super().S(stmts, st, env, K)
 
@@ -283,8 +283,8 @@ class Ext(cpp2coq.Tr):
         if len(c["a"]) != 1:
             raise Unsupported("a structured binding among other declarations")
         d = c["a"][0]
-        names = [x["n"] for x in d["a"][1:] if x["k"] == "?BindingDecl"]
-        if len(names) != len(d["a"]) - 1:
+        names = list(d["n"])
+        if len(d["a"]) != 1 or not names:
             raise Unsupported("structured binding %s" % show(d)[:200])
         b, t, kd = self.E(d["a"][0], st, env)
         parts = ITEM_PARTS.get(kd)
@@ -340,7 +340,8 @@ class Ext(cpp2coq.Tr):
                 env_ = dict(env_)
                 env_["__fill"] = ("(%s ++ [(%s, %s)])" % (env_["__fill"][0], env_[kn][0], env_[vn][0]), "outvec")
             return "Ok %s" % self.tuple_of(st_, env_, names)
-        bt = self.S([inner], bst, benv, (done, self.no_return, None))
+        # the statements of the body, not as a block: the names bound in the body must still be in scope in `done`
+        bt = self.S(inner["a"], bst, benv, (done, self.no_return, None))
         self.fill_alias = None
         j, ns = self.fresh("j"), self.fresh("s")
         lines = ["do %s <- foldM (fun acc %s => let '%s := acc in" % (j, x, acc_pat) if names else
